@@ -164,7 +164,10 @@ CHECKS['C05'] = dict(text="Theorems: (shutdown ledger whose effects are read off
 CHECKS['C17'] = dict(text="Theorems: (handler-slot model) a SIGINT is delivered at once, or deferred by DelayedKeyboardInterrupt and delivered "
   "exactly once when the block is left, or ignored while a worker is being forked -- the handler slot is restored in every case; "
   "(ledger) a KeyboardInterrupt that reaches a map call at any point goes through terminate() before it leaves the call, after which no "
-  "worker and no helper thread is left; (Fail model) an interrupted call never returns a partial result. Tie: structural kernels "
+  "worker and no helper thread is left; (routes) the try structure of imap_unordered is generated (every statement with the constructs "
+  "around it, every try block with its handlers) and under Python's propagation rule EVERY statement from which a worker can be alive "
+  "routes a KeyboardInterrupt through an unconditional terminate()/_handle_exception() before it leaves the call; workers are "
+  "started/joined only from such statements; (Fail model) an interrupted call never returns a partial result. Tie: structural kernels "
   "(signal.py bodies, the three exception handlers of imap_unordered, worker SIG_IGN) + Spec lemmas; end to end: a recording run "
   "enumerates every point of the library at which CPython can run a signal handler in the main thread during a call (function entries, "
   "returns of C calls); SIGINT is delivered exactly there (setprofile injection, deterministic, replayable) and at random instants, to "
